@@ -30,7 +30,7 @@ MANIFEST = {
             "block inside the instance): the hash yields 32 proper bytes and has no collision among the state keys of the run, the bit "
             "expansion has 8 bits per byte and is injective on proper byte strings of equal length, root comparison is equality; script "
             "keys are module-store keys (state prefix + 6 bytes) of the run's key universe. Not proved, only checked by the "
-            "correspondence oracle: the exact whole-transaction event list of a failed transaction tied to the script. The real trie's "
+            "correspondence oracle spec_tx (Corr/C16.v), NOT a theorem: the exact whole-transaction event list of a failed transaction tied to the script. The real trie's "
             "storage layout is tied to the abstract trie by C10's correspondence and here by comparing every root with a from-scratch "
             "real trie. Four defects repaired in /repo, see findings/C16.json.",
 }
